@@ -349,6 +349,10 @@ func TestVerifC22B_Negotiation(t *testing.T) {
 	run := func(c c22Case, seed int) {
 		l1 := []int{-1, 0, 1, 4, 11, 12, 100}[rng.Intn(7)]
 		l2 := []int{-3, -2, -1, 0, 1, 6, 9, 10, 100}[rng.Intn(9)]
+		if c.Size > 1<<19 && vfQuick() { // quick tier: big bodies at fast levels only
+			l1 = []int{0, 1, 4}[rng.Intn(3)]
+			l2 = []int{-3, 1, 6}[rng.Intn(3)]
+		}
 		var sb strings.Builder
 		fmt.Fprintf(&sb, "GET /c22 HTTP/1.1\r\nHost: c22\r\nConnection: close\r\n")
 		if c.AEPresent {
@@ -442,6 +446,9 @@ func TestVerifC22B_Negotiation(t *testing.T) {
 	})
 	// multi-MiB bodies, buffered and streamed, every coding
 	big := 2<<20 + 12345
+	if vfQuick() {
+		big = 1<<20 + 12345
+	}
 	for _, w := range []string{"std", "brotli"} {
 		for _, e := range []string{"gzip", "deflate", "br", "zstd"} {
 			if w == "std" && e == "br" {
